@@ -124,6 +124,25 @@ class InitMemRefAllocMemorySpace(RewritePattern):
         rewriter.replace_op(op, new_op, new_results=[new_op.memref])
 
 
+def is_defined_before(earlier: Operation, op: Operation) -> bool:
+    """
+    Whether the results of `earlier` can be used by `op`: `earlier` precedes `op`
+    (or the operation that contains `op`) in its block.
+    """
+    block = earlier.parent_block()
+    ancestor: Operation | None = op
+    while ancestor is not None and ancestor.parent_block() is not block:
+        ancestor = ancestor.parent_op()
+    if ancestor is None:
+        return False
+    next_op = earlier.next_op
+    while next_op is not None:
+        if next_op is ancestor:
+            return True
+        next_op = next_op.next_op
+    return False
+
+
 class InitStreamAndLinalgMemorySpace(RewritePattern):
     """
     Convert all linalg.generics and stream.streaming region ops to only use L1
@@ -148,6 +167,7 @@ class InitStreamAndLinalgMemorySpace(RewritePattern):
                     isinstance(use.operation, memref.MemorySpaceCastOp)
                     and isinstance(use_type := use.operation.dest.type, builtin.MemRefType)
                     and use_type.memory_space == L1.attribute
+                    and is_defined_before(use.operation, op)
                 ):
                     cast_op = use.operation
                     break
